@@ -33,6 +33,7 @@ def run(ctx):
     R5 = rep.rule('C10.R5', 'forgetting is told to the reloader: every destroying operation notifies, and the handler mutates the graph', floor=3)
     R6 = rep.rule('C10.R6', 'registering as reloadable implies caching in the same operation', floor=2)
     S1 = rep.rule('C05.R2', 'registration happens exactly after a successful load, with the dependencies of that load (shared with C05)', floor=1)
+    R8 = rep.rule('C10.R8', 'AssetMap::insert runs on_insert if and only if the entry was stored (inside the keep-first insertion, which holds the lock of the map)', floor=2)
     R7 = rep.rule('C10.R7', 'type descriptors are honest: hot_reloaded mirrors the declared HOT_RELOADED constants, which forward from Asset to Compound to Storable', floor=6)
     for cfg, F in ctx.cfgs():
         hr = 'hot-reloading' in ctx.cfg_features[cfg]
@@ -52,7 +53,8 @@ def run(ctx):
         r4(R4, cfg, F)
         r5(R5, cfg, F)
         r6(R6, cfg, F)
-        for r in (R2, R3, R4, R5, R6):
+        r8(R8, cfg, F)
+        for r in (R2, R3, R4, R5, R6, R8):
             r.finish_cfg(cfg)
 
 
@@ -107,7 +109,12 @@ def r1(R1, cfg, F, hr):
             R1.missing(cfg, p)
             continue
         cs = [x.callee.name for x in cb.calls() if x.callee]
-        R1.check(cs == [want] and cb.calls()[0].dest['l'] == 0, cfg, p, '_mutable=' + want, 'the mutability predicate must be "this cache has a reloader"; calls %s' % cs, cb.loc())
+        ok = cs == [want] and cb.calls()[0].dest['l'] == 0
+        if not ok and 'add_any' in p and not cb.calls():
+            # values stored with get_or_insert are never written by the reloader (R3, R6, R8): a constant is as good
+            rets = [st for _, _, st in cb.assigns() if st['place']['l'] == 0]
+            ok = len(rets) == 1 and rets[0]['rv']['k'] == 'use' and rets[0]['rv']['op'].get('text') in ('true', 'false')
+        R1.check(ok, cfg, p, '_mutable=' + want, 'the mutability predicate must be "this cache has a reloader"; calls %s' % cs, cb.loc())
     hb = F.body('anycache::CacheExt::_has_reloader')
     if hb:
         cs = [x.callee.name for x in hb.calls() if x.callee]
@@ -149,8 +156,9 @@ def r2(R2, cfg, F):
 
 
 def r3(R3, cfg, F):
-    cs = F.callers_of(r'^hot_reloading::HotReloader::add_asset$')
-    R3.check(cs == ['asset::load_and_record'], cfg, 'hot_reloading::HotReloader::add_asset', 'callers={load_and_record}', 'reloadable registration may happen only in load_and_record; callers %s' % cs)
+    cs = sorted({(c.body.root, c.body.kind) for c in F.calls_to(r'^hot_reloading::HotReloader::add_asset$')})
+    R3.check(cs == [('anycache::RawCache::add_asset', 'Closure')], cfg, 'hot_reloading::HotReloader::add_asset', 'callers={on_insert callback of RawCache::add_asset}',
+             'reloadable registration may happen only in the on_insert callback built by RawCache::add_asset; callers %s' % cs)
     for p in ('anycache::CacheExt::_get_or_insert', 'anycache::CacheExt::add_any', '<T as anycache::Cache>::insert'):
         if not F.body(p):
             R3.missing(cfg, p)
@@ -310,34 +318,24 @@ def r6(R6, cfg, F):
         R6.missing(cfg, 'HotReloader::add_asset call')
         return
     for reg in regs:
-        f = reg.body
-        # bool parameters that must be true for the registration to be reached
-        guards = []
-        for bb, t in f.terms():
-            if t['k'] != 'switch' or f.blocks[bb]['cleanup']:
-                continue
-            ap = f.access_path(t['discr'])
-            if ap and len(ap) == 1 and ap[0].startswith('arg') and f.local_ty(int(ap[0][3:])) == 'bool':
-                true = [d for d, lab in f.edges(bb) if lab != 'sw:0']
-                if len(true) == 1 and reg.bb not in f.reachable([0], removed_edges=[(bb, true[0])]):
-                    guards.append(int(ap[0][3:]))
-        callers = F.calls_to('^' + re.escape(f.path) + '$')
-        for c in callers:
-            b = c.body
-            off = [gi for gi in guards if gi - 1 < len(c.args) and c.args[gi - 1].get('text') == 'false']
-            if off:
-                R6.ok(cfg, b.path, 'registers-non-reloadable(typ=None)', c.loc())
-                continue
-            # the loaded entry must flow into AssetMap::insert in this function
-            ins = [x for x in b.calls() if x.callee and x.callee.defp == 'anycache::AssetMap::insert']
-            ok = False
-            for x in ins:
-                roots = b.origins(x.args[1], passthrough=common.PT_TRY)
-                if ('call', c.bb) in roots:
-                    ok = True
-            R6.check(ok, cfg, b.path, 'registers-reloadable-without-caching',
-                     '`%s` reaches a reloadable registration (HotReloader::add_asset, typ = Some) through %s but does not store the loaded entry in the cache: '
-                     'the reloader will later write whatever value sits under that key (e.g. one stored with get_or_insert)' % (b.path, f.path), c.loc())
+        cb = reg.body
+        pb = F.body(cb.root) if cb.kind == 'Closure' else None
+        ok = False
+        why = 'the registration is not inside an on_insert callback'
+        if pb is not None:
+            cs = common.closure_sites(pb, cb.path)
+            ins = [x for x in pb.calls() if x.callee and x.callee.defp == 'anycache::AssetMap::insert']
+            lds = [x for x in pb.calls() if x.callee and x.callee.best == 'asset::load_and_record']
+            if len(cs) == 1 and len(ins) == 1 and len(lds) == 1 and len(ins[0].args) == 3:
+                me = 'agg@bb%d.%d' % (cs[0][0], cs[0][1])
+                # the closure value is used only as the on_insert argument of that insertion
+                uses = [u for l in pb.flows_to(cs[0][2]['place']['l']) for u in pb.uses_of(l) if u[0] == 'call']
+                ok = pb.access_path(ins[0].args[2]) == [me] and all(u[2] is ins[0] or (u[2].bb == ins[0].bb) for u in uses) \
+                    and ('call', lds[0].bb) in pb.origins(ins[0].args[1], passthrough=common.PT_TRY)
+                why = 'the callback that registers is not (only) the on_insert argument of the insertion of the loaded entry'
+        R6.check(ok, cfg, (pb or cb).path, 'registers-reloadable-only-when-stored',
+                 '`%s` registers an asset as reloadable (HotReloader::add_asset, typ = Some): %s. The reloader will later write whatever value sits under '
+                 'that key (e.g. one stored with get_or_insert)' % (cb.path, why), reg.loc())
     # owned registration produces typ = None
     ob = F.body(D + 'DepsGraph::insert_owned_asset')
     if ob:
@@ -351,6 +349,59 @@ def r6(R6, cfg, F):
         regs_owned = F.calls_to(r'^hot_reloading::HotReloader::add_owned_asset$')
         if regs_owned:
             R6.missing(cfg, 'DepsGraph::insert_owned_asset')
+
+
+def r8(R8, cfg, F):
+    """on_insert (arg 3 of AssetMap::insert) is the only way a load registers itself as reloadable.  It must run
+    only when the entry is stored -- otherwise the key of a value stored by someone else (get_or_insert) becomes
+    reloadable (finding F8) -- and whenever it is stored -- otherwise a loaded asset is never reloaded (C05)."""
+    for m in ('cache::AssetMap', 'local_cache::AssetMap'):
+        b = F.body('<%s as anycache::AssetMap>::insert' % m)
+        if not b:
+            R8.missing(cfg, m + '::insert')
+            continue
+        if b.arg_count != 3:
+            R8.unrecognised(cfg, b.path, 'insert(&self, entry, on_insert)', b.loc())
+            continue
+        keep = [c for c in b.calls() if map_call_kind(c) == 'KEEP_FIRST']
+        entry = [c for c in b.calls() if map_call_kind(c) == 'ENTRY']
+        direct = [c for c in b.calls() if common.user_call_kind(c) and ('arg', 3) in b.origins(c.args[0])]
+        cl = [(bb, j, st) for bb, j, st in b.assigns() if 'closure' in st['rv'] and any(b.access_path(o) == ['arg3'] for o in st['rv']['ops'])]
+        ok, why = False, 'on_insert is neither called under the Vacant arm nor handed to or_insert_with'
+        if len(cl) == 1 and not direct and len(keep) == 1 and keep[0].callee.name in ('or_insert_with', 'or_insert_with_key'):
+            me = 'agg@bb%d.%d' % (cl[0][0], cl[0][1])
+            uses = [u for l in b.flows_to(cl[0][2]['place']['l']) for u in b.uses_of(l) if u[0] == 'call']
+            cb = F.body(cl[0][2]['rv']['closure'])
+            ok = len(keep[0].args) == 2 and b.access_path(keep[0].args[1]) == [me] and all(u[2].bb == keep[0].bb for u in uses) and cb is not None
+            why = 'the closure that runs on_insert is not (only) the argument of or_insert_with'
+            if ok:
+                k = [i for i, o in enumerate(cl[0][2]['rv']['ops']) if b.access_path(o) == ['arg3']][0]
+                e = [i for i, o in enumerate(cl[0][2]['rv']['ops']) if b.access_path(o) == ['arg2']]
+                calls = [c for c in cb.calls() if common.user_call_kind(c)]
+                ok = len(calls) == 1 and (common.deep_path(cb, calls[0].args[0]) or [])[-1:] == [str(k)] \
+                    and not common.guards_of(cb, calls[0].bb) and common.inevitable(cb, [], calls[0].bb)
+                why = 'the closure given to or_insert_with does not call on_insert exactly once on every path'
+                if ok:
+                    rets = [st for _, _, st in cb.assigns() if st['place']['l'] == 0 and not st['place']['p']]
+                    ok = len(e) == 1 and len(rets) >= 1 and all(st['rv']['k'] == 'use' and (common.deep_path(cb, st['rv']['op']) or [])[-1:] == [str(e[0])] for st in rets)
+                    why = 'the value stored by or_insert_with is not the entry argument'
+        elif not cl and len(direct) == 1 and len(entry) == 1:
+            # match map.entry(key) { Vacant(e) => { on_insert(); e.insert(entry) } Occupied(e) => e.into_mut() }
+            g = common.guards_of(b, direct[0].bb)
+            ent = F.ext_enum_variants('std::collections::hash_map::Entry')
+            vac = [x for x in g if x[3] == ('discr', ['call@bb%d' % entry[0].bb])]
+            ok = len(vac) == 1 and ent is not None and vac[0][2] == 'sw:%d' % ent.index('Vacant') and common.inevitable(b, vac, direct[0].bb)
+            why = 'the direct call of on_insert is not on (exactly) the Vacant arm of the map entry'
+        R8.check(ok, cfg, b.path, 'on_insert-iff-stored', 'AssetMap::insert: %s' % why, b.loc())
+    # the other insertion (get_or_insert) passes a callback that does nothing
+    ib = F.body('<T as anycache::Cache>::insert')
+    if ib:
+        for bb, j, st in ib.assigns():
+            if 'closure' in st['rv']:
+                cb = F.body(st['rv']['closure'])
+                R8.check(cb is not None and not cb.calls(), cfg, ib.path, 'get_or_insert-callback-is-empty', 'the on_insert callback of get_or_insert must not do anything', ib.loc())
+    else:
+        R8.missing(cfg, 'Cache::insert')
 
 
 def const_forward(F, path):
